@@ -98,8 +98,18 @@ def skip_all(v):
     return True
 
 
-def ident(*a, **kw):
-    return a[-1] if a else None
+class _Ident(object):
+    """pass-through callable with a short, address-free repr"""
+    __name__ = 'ident'
+
+    def __call__(self, *a, **kw):
+        return a[-1] if a else None
+
+    def __repr__(self):
+        return 'ident'
+
+
+ident = _Ident()
 
 
 # ---------------------------------------------------------------------------
@@ -386,12 +396,16 @@ def check_trace(err, root, target, where):
     # P3: one Spec line per nesting level of the failing path, in order
     pos = -1
     positions = []
+    ambiguous = False
+    distinct_allowed = list(allowed)
     for n in path:
         full = fmtval(n.spec, 0)
         found = None
         for i, p in spec_lines:
             if i > pos and shown_matches(p[3], full):
                 found = i
+                if p[3] != full and sum(1 for a_ in distinct_allowed if shown_matches(p[3], a_)) > 1:
+                    ambiguous = True      # a truncated line that could stand for several specs
                 break
         if found is None:
             raise Mismatch('path-spec-missing', '%s: the spec %s of the failing path is not listed (in order):\n%s'
@@ -406,7 +420,7 @@ def check_trace(err, root, target, where):
     shown_target = None
     if parsed[idx][1] == '\\':
         cur_d -= 1
-    for i in range(idx - 1, -1, -1):
+    for i in ([] if ambiguous else range(idx - 1, -1, -1)):
         d_, tick_, label_, val_ = parsed[i]
         if d_ > cur_d:
             continue
@@ -417,7 +431,8 @@ def check_trace(err, root, target, where):
             break
         if tick_ == '\\':
             cur_d -= 1           # above the first line of this branch only enclosing levels count
-    if shown_target is None or not shown_matches(shown_target, fmtval(innermost.target, 0)):
+    if not ambiguous and (shown_target is None or not shown_matches(shown_target, fmtval(innermost.target, 0))):
+        # (skipped when a truncated Spec line could stand for several specs: its position is then unreliable)
         raise Mismatch('innermost-target', '%s: the innermost failing spec %s received %s but the trace shows target %r:\n%s'
                        % (where, fmtval(innermost.spec, 0)[:80], fmtval(innermost.target, 0)[:80], shown_target, show))
     # P6: attempted branches of branch points on the path, with the errors that ended them
